@@ -79,7 +79,7 @@ ImplExact == cli # NoCli =>
                 /\ out.v = IF cli.acct # << >> THEN "R" ELSE "D"
                 /\ out.acct = cli.acct
 
-Case(l, c, o) == [svcs |-> Svcs, rules |-> l, clis |-> << c >>, want |-> << o >>]
+Case(l, c, o) == [svcs |-> Svcs, rules |-> l, clis |-> << c >>, want |-> << o >>, nm |-> << Cardinality(Matching(Range(l), c)) >>]
 
 Emit == \/ EmitMod = 0
         \/ cli' = NoCli
